@@ -33,6 +33,9 @@ import (
 type c01KV struct {
 	K string `json:"k"`
 	V string `json:"v"`
+	// namespace of the attribute name: only in the oracle-only kind "qattr" (the model's
+	// attributes are unqualified)
+	NS string `json:"ns,omitempty"`
 }
 type c01Node struct {
 	Space   string    `json:"space,omitempty"`
@@ -82,6 +85,8 @@ type c01In struct {
 	HU        uint64  `json:"hu,omitempty"`
 	Mechanism string  `json:"mechanism,omitempty"`
 	Value     string  `json:"value,omitempty"`
+	Cond      string  `json:"cond,omitempty"`  // smfailed: element name of the condition
+	Depth     int     `json:"depth,omitempty"` // kind deepnode: nesting depth of the generic payload
 	// kind reflect: oracle only
 	GoType string `json:"gotype,omitempty"`
 	Seed   int64  `json:"seed,omitempty"`
@@ -102,8 +107,12 @@ func init() { register(c01{}) }
 func (c01) ID() string    { return "C01" }
 func (c01) RunFn() string { return "run_C01" }
 func (c01) Workers() int  { return 8 }
+
+// Journal: the case in flight is written down first, so that an input that brings the process
+// down (fatal stack overflow in the recursive Node encoder) is found again by the driver.
+func (c01) Journal() bool { return true }
 func (c01) Rule() string {
-	return "exhaustive: 3 stanza kinds x 2^5 presence patterns of type/id/from/to/lang x {no child, each child alone}; random: text fields from a pool (ASCII, each XML metacharacter alone and mixed, ]]>, blank-padded, TAB/LF/CR, non-ASCII, astral, 2 kB), Err with code 0/non-zero x fields empty/set, generic Node trees depth<=5 width<=4 with attributes and namespaces, registered extensions (subsets, order, repetition) filled by reflection, SM/SASL-auth/handshake elements; oracle-only reflection cases for every registered type and the SM/SASL/handshake elements, alone and inside its stanza kind; oracle-only subset sweep over which optional fields of each such type are set (every optional position at depth <= 3 is a slot: all-unset, all-set, every slot alone, every slot alone unset, all 2^k patterns when k <= 5 and all 2^g patterns of every group of <= 5 sibling fields with the rest unset / set; pointers nil/non-nil, strings empty/non-empty, numbers zero/non-zero, time.Time zero/non-zero, slices empty/non-empty); oracle-only noise cases: every registered type inside its stanza kind with unknown children and same-named descendants (of the extension, of the enclosing element, of the stanza, of the core children) injected at random places of the extension's bytes, typed fields compared with the clean decode; domain: an IQ whose Error pointer is non-nil and points to the all-empty Err is excluded (written as nothing, read back as nil; kept as a hypothesis of the theorem, wf_iq), generated only as an out-of-domain model/code comparison; distinct = kind + presence pattern of every field + text class + tree shape; non-trivial = at least one non-empty field besides the kind"
+	return "exhaustive: 3 stanza kinds x 2^5 presence patterns of type/id/from/to/lang x {no child, each child alone}; random: text fields from a pool (ASCII, each XML metacharacter alone and mixed, ]]>, blank-padded, TAB/LF/CR, non-ASCII, astral, 2 kB), Err with code 0/non-zero x fields empty/set, generic Node trees depth<=5 width<=4 with attributes and namespaces, registered extensions (subsets, order, repetition) filled by reflection, SM/SASL-auth/handshake elements; oracle-only reflection cases for every registered type and the SM/SASL/handshake elements, alone and inside its stanza kind; oracle-only subset sweep over which optional fields of each such type are set (every optional position at depth <= 3 is a slot: all-unset, all-set, every slot alone, every slot alone unset, all 2^k patterns when k <= 5 and all 2^g patterns of every group of <= 5 sibling fields with the rest unset / set; pointers nil/non-nil, strings empty/non-empty, numbers zero/non-zero, time.Time zero/non-zero, slices empty/non-empty); oracle-only: a generic payload nested 600000 levels deep (marshal, unmarshal, marshal), generic nodes with namespace-qualified attributes; oracle-only noise cases: every registered type inside its stanza kind with unknown children and same-named descendants (of the extension, of the enclosing element, of the stanza, of the core children) injected at random places of the extension's bytes, typed fields compared with the clean decode; domain: an IQ whose Error pointer is non-nil and points to the all-empty Err is excluded (written as nothing, read back as nil; kept as a hypothesis of the theorem, wf_iq), generated only as an out-of-domain model/code comparison; distinct = kind + presence pattern of every field + text class + tree shape; non-trivial = at least one non-empty field besides the kind"
 }
 
 // ---------------------------------------------------------------- pools
@@ -236,7 +245,7 @@ func c01Fill(v reflect.Value, r *rand.Rand, depth int, plainText bool) {
 		}
 		if v.Type() == c01TimeT {
 			if r.Intn(2) == 0 {
-				v.Set(reflect.ValueOf(time.Unix(1500000000+int64(r.Intn(1000000)), 0).UTC()))
+				v.Set(reflect.ValueOf(c01Time(r)))
 			}
 			return
 		}
@@ -406,21 +415,71 @@ func c01DiffField(a, b reflect.Value) string {
 		}
 		return ""
 	}
-	t := a.Type()
-	for i := 0; i < t.NumField(); i++ {
-		f := t.Field(i)
-		if f.PkgPath != "" {
-			continue
+	return c01DiffPath(a, b, 0)
+}
+
+// c01DiffPath: field path (Go field names, implementation types of interface values) down to
+// the first place where the canonical forms differ; it names the finding.
+func c01DiffPath(a, b reflect.Value, depth int) string {
+	if reflect.DeepEqual(c01Canon(a), c01Canon(b)) {
+		return ""
+	}
+	if depth > 6 || a.Kind() != b.Kind() {
+		return "value"
+	}
+	switch a.Kind() {
+	case reflect.Struct:
+		if a.Type() != b.Type() || c01IsLeafStruct(a.Type()) {
+			return "value"
 		}
-		name, _ := c01TagInfo(f)
-		if f.Name == "XMLName" && name != "" {
-			continue
+		t := a.Type()
+		for i := 0; i < t.NumField(); i++ {
+			f := t.Field(i)
+			name, _ := c01TagInfo(f)
+			if f.PkgPath != "" || (f.Name == "XMLName" && (name != "" || c01NameFixed[t])) {
+				continue
+			}
+			if f.Name == "XMLName" && f.Type == c01NameT {
+				if a.Field(i).Interface().(xml.Name).Local != b.Field(i).Interface().(xml.Name).Local {
+					return f.Name
+				}
+				continue
+			}
+			if sub := c01DiffPath(a.Field(i), b.Field(i), depth+1); sub != "" {
+				if sub == "value" {
+					return f.Name
+				}
+				return f.Name + "." + sub
+			}
 		}
-		if !reflect.DeepEqual(c01Canon(a.Field(i)), c01Canon(b.Field(i))) {
-			return f.Name
+		return "value"
+	case reflect.Ptr, reflect.Interface:
+		if a.IsNil() || b.IsNil() {
+			return "value"
+		}
+		if a.Elem().Type() != b.Elem().Type() {
+			return "value"
+		}
+		sub := c01DiffPath(a.Elem(), b.Elem(), depth+1)
+		if a.Kind() == reflect.Interface {
+			tn := strings.TrimPrefix(strings.TrimPrefix(a.Elem().Type().String(), "*"), "stanza.")
+			if sub == "value" {
+				return "(" + tn + ")"
+			}
+			return "(" + tn + ")." + sub
+		}
+		return sub
+	case reflect.Slice:
+		if a.Len() != b.Len() {
+			return "value"
+		}
+		for i := 0; i < a.Len(); i++ {
+			if sub := c01DiffPath(a.Index(i), b.Index(i), depth+1); sub != "" {
+				return sub
+			}
 		}
 	}
-	return ""
+	return "value"
 }
 
 // c01NewFilled: pointer to a value of the named type filled from the seed.
@@ -478,6 +537,18 @@ func c01IsLeafStruct(t reflect.Type) bool {
 	return t == c01NameT || t == c01TimeT || t == c01NullIntT || t == c01ForwardedT || t == c01NodeT
 }
 
+// c01Time: a whole-second instant, in UTC or in a zone east or west of it
+func c01Time(r *rand.Rand) time.Time {
+	t := time.Unix(1500000000+int64(r.Intn(1000000)), 0)
+	switch r.Intn(3) {
+	case 0:
+		return t.In(time.FixedZone("east", 2*3600))
+	case 1:
+		return t.In(time.FixedZone("west", -7*3600))
+	}
+	return t.UTC()
+}
+
 // c01NonZero: a value that is certainly not the zero value ("set")
 func c01NonZero(v reflect.Value, r *rand.Rand, plainText bool) {
 	switch v.Kind() {
@@ -498,7 +569,7 @@ func c01NonZero(v reflect.Value, r *rand.Rand, plainText bool) {
 	case reflect.Struct:
 		switch v.Type() {
 		case c01TimeT:
-			v.Set(reflect.ValueOf(time.Unix(1500000000+int64(r.Intn(1000000)), 0).UTC()))
+			v.Set(reflect.ValueOf(c01Time(r)))
 		case c01NullIntT:
 			v.Set(reflect.ValueOf(stanza.NewNullableInt(r.Intn(2001) - 1000)))
 		case c01ForwardedT:
@@ -726,6 +797,11 @@ func c01ReflectRoundTrip(goType string, seed int64, wrap string, mask string) (m
 	if !ok {
 		return "unknown Go type " + goType, "harness:unknown-type"
 	}
+	return c01ValueRoundTrip(goType, p, seed, wrap)
+}
+
+// c01ValueRoundTrip: p points to the value; wrap: "" or the stanza kind it is carried in.
+func c01ValueRoundTrip(goType string, p reflect.Value, seed int64, wrap string) (msg, sig string) {
 	var v interface{} = p.Interface()
 	var fresh interface{} = reflect.New(p.Type().Elem()).Interface()
 	get := func(x interface{}) (reflect.Value, string) { return reflect.ValueOf(x), "" }
@@ -831,7 +907,7 @@ func c01ParseTree(b []byte) (*c01XT, bool) {
 				if a.Name.Space != "" {
 					return nil, false
 				}
-				n.Attrs = append(n.Attrs, c01KV{a.Name.Local, a.Value})
+				n.Attrs = append(n.Attrs, c01KV{K: a.Name.Local, V: a.Value})
 			}
 			if len(stack) > 0 {
 				p := stack[len(stack)-1]
@@ -927,7 +1003,7 @@ func c01ReadDoc(b []byte) (*c01XT, bool) {
 					key = ans + " " + key
 					n.Qualified = true
 				}
-				n.Attrs = append(n.Attrs, c01KV{key, a.Value})
+				n.Attrs = append(n.Attrs, c01KV{K: key, V: a.Value})
 			}
 			stack[len(stack)-1].el = n
 			if len(stack) > 1 {
@@ -1127,7 +1203,7 @@ func c01ExtSafe(e c01Ext) bool {
 func c01GoNode(n c01Node) stanza.Node {
 	out := stanza.Node{XMLName: xml.Name{Space: n.Space, Local: n.Local}, Content: n.Content}
 	for _, a := range n.Attrs {
-		out.Attrs = append(out.Attrs, xml.Attr{Name: xml.Name{Local: a.K}, Value: a.V})
+		out.Attrs = append(out.Attrs, xml.Attr{Name: xml.Name{Space: a.NS, Local: a.K}, Value: a.V})
 	}
 	for _, k := range n.Nodes {
 		out.Nodes = append(out.Nodes, c01GoNode(k))
@@ -1156,6 +1232,24 @@ func c01UintP(p *uint64) *uint {
 	}
 	u := uint(*p)
 	return &u
+}
+
+// the 27 condition types of stanza_errors.go, by element name
+var c01Conds = map[string]func() stanza.StanzaErrorGroup{
+	"bad-format": func() stanza.StanzaErrorGroup { return &stanza.BadFormat{} }, "bad-namespace-prefix": func() stanza.StanzaErrorGroup { return &stanza.BadNamespacePrefix{} },
+	"conflict": func() stanza.StanzaErrorGroup { return &stanza.Conflict{} }, "connection-timeout": func() stanza.StanzaErrorGroup { return &stanza.ConnectionTimeout{} },
+	"host-gone": func() stanza.StanzaErrorGroup { return &stanza.HostGone{} }, "host-unknown": func() stanza.StanzaErrorGroup { return &stanza.HostUnknown{} },
+	"improper-addressing": func() stanza.StanzaErrorGroup { return &stanza.ImproperAddressing{} }, "internal-server-error": func() stanza.StanzaErrorGroup { return &stanza.InternalServerError{} },
+	"invalid-from": func() stanza.StanzaErrorGroup { return &stanza.InvalidForm{} }, "invalid-id": func() stanza.StanzaErrorGroup { return &stanza.InvalidId{} },
+	"invalid-namespace": func() stanza.StanzaErrorGroup { return &stanza.InvalidNamespace{} }, "invalid-xml": func() stanza.StanzaErrorGroup { return &stanza.InvalidXML{} },
+	"not-authorized": func() stanza.StanzaErrorGroup { return &stanza.NotAuthorized{} }, "not-well-formed": func() stanza.StanzaErrorGroup { return &stanza.NotWellFormed{} },
+	"policy-violation": func() stanza.StanzaErrorGroup { return &stanza.PolicyViolation{} }, "remote-connection-failed": func() stanza.StanzaErrorGroup { return &stanza.RemoteConnectionFailed{} },
+	"reset": func() stanza.StanzaErrorGroup { return &stanza.Reset{} }, "resource-constraint": func() stanza.StanzaErrorGroup { return &stanza.ResourceConstraint{} },
+	"restricted-xml": func() stanza.StanzaErrorGroup { return &stanza.RestrictedXML{} }, "see-other-host": func() stanza.StanzaErrorGroup { return &stanza.SeeOtherHost{} },
+	"system-shutdown": func() stanza.StanzaErrorGroup { return &stanza.SystemShutdown{} }, "undefined-condition": func() stanza.StanzaErrorGroup { return &stanza.UndefinedCondition{} },
+	"unexpected-request": func() stanza.StanzaErrorGroup { return &stanza.UnexpectedRequest{} }, "unsupported-encoding": func() stanza.StanzaErrorGroup { return &stanza.UnsupportedEncoding{} },
+	"unsupported-stanza-type": func() stanza.StanzaErrorGroup { return &stanza.UnsupportedStanzaType{} }, "unsupported-version": func() stanza.StanzaErrorGroup { return &stanza.UnsupportedVersion{} },
+	"xml-not-well-formed": func() stanza.StanzaErrorGroup { return &stanza.XMLNotWellFormed{} },
 }
 
 // c01Build: the real value and a fresh value of the same type to decode into.
@@ -1204,7 +1298,11 @@ func c01Build(in c01In) (v interface{}, fresh interface{}) {
 	case "smresumed":
 		return stanza.SMResumed{PrevId: in.PrevId, H: c01UintP(in.H)}, &stanza.SMResumed{}
 	case "smfailed":
-		return stanza.SMFailed{H: c01UintP(in.H)}, &stanza.SMFailed{}
+		f := stanza.SMFailed{H: c01UintP(in.H)}
+		if mk, ok := c01Conds[in.Cond]; ok {
+			f.StreamErrorGroup = mk()
+		}
+		return f, &stanza.SMFailed{}
 	case "saslauth":
 		return stanza.SASLAuth{Mechanism: in.Mechanism, Value: in.Value}, &stanza.SASLAuth{}
 	case "handshake":
@@ -1228,7 +1326,7 @@ func c01NodeSx(n stanza.Node) Sx {
 		if a.Name.Space != "" {
 			k = a.Name.Space + ":" + k
 		}
-		kvs = append(kvs, c01KV{k, a.Value})
+		kvs = append(kvs, c01KV{K: k, V: a.Value})
 	}
 	kids := make([]Sx, len(n.Nodes))
 	for i, k := range n.Nodes {
@@ -1306,9 +1404,9 @@ func c01Describe(v interface{}) Sx {
 		return c01Describe(*x)
 	case stanza.SMFailed:
 		if x.StreamErrorGroup != nil {
-			return L(Z(11), c01OptU(x.H), SBytes(x.StreamErrorGroup.GroupErrorName()))
+			return L(Z(11), c01OptU(x.H), SRunes(x.StreamErrorGroup.GroupErrorName()))
 		}
-		return L(Z(11), c01OptU(x.H))
+		return L(Z(11), c01OptU(x.H), SRunes(""))
 	case *stanza.SMFailed:
 		return c01Describe(*x)
 	case stanza.SASLAuth:
@@ -1333,7 +1431,11 @@ func (c01) Decode(raw json.RawMessage) (interface{}, error) {
 
 func (c01) Run(inp interface{}) Sx {
 	in := inp.(c01In)
-	if in.Kind == "reflect" || in.Kind == "noise" {
+	if in.Kind == "deepnode" {
+		c01DeepRoundTrip(in.Depth) // on the worker: a crash here is journalled
+		return L(Z(0))
+	}
+	if c01OracleOnly(in.Kind) {
 		return L(Z(0)) // oracle-only case: no model counterpart
 	}
 	// What is compared with the model is the DOCUMENT the bytes denote and the decoded VALUE,
@@ -1368,7 +1470,7 @@ func (c01) Run(inp interface{}) Sx {
 
 func (c01) Input(inp interface{}) Sx {
 	in := inp.(c01In)
-	if in.Kind == "reflect" || in.Kind == "noise" {
+	if c01OracleOnly(in.Kind) {
 		return L(Z(0))
 	}
 	v, _ := c01Build(in)
@@ -1427,7 +1529,7 @@ func c01Retext(in c01In, r *rand.Rand) c01In {
 	ren = func(n c01Node) c01Node {
 		m := c01Node{Space: n.Space, Local: n.Local, Content: re(n.Content)}
 		for _, a := range n.Attrs {
-			m.Attrs = append(m.Attrs, c01KV{a.K, c01Text(r)})
+			m.Attrs = append(m.Attrs, c01KV{K: a.K, V: c01Text(r), NS: a.NS})
 		}
 		for _, k := range n.Nodes {
 			m.Nodes = append(m.Nodes, ren(k))
@@ -1440,6 +1542,7 @@ func c01Retext(in c01In, r *rand.Rand) c01In {
 	}
 	out.SId, out.Location, out.SResume, out.PrevId = re(in.SId), re(in.Location), re(in.SResume), re(in.PrevId)
 	out.Mechanism = c01Text(r)
+	out.Value = re(in.Value)
 	return out
 }
 
@@ -1526,6 +1629,16 @@ func (c01) Oracle(inp interface{}, obs Sx) (string, string) {
 	}
 	if in.Kind == "noise" {
 		return c01NoiseRoundTrip(in.GoType, in.Seed, in.Wrap)
+	}
+	if in.Kind == "deepnode" {
+		return c01DeepRoundTrip(in.Depth)
+	}
+	if in.Kind == "qattr" {
+		return c01QAttrRoundTrip(in)
+	}
+	if in.Kind == "cmdnote" { // an ad-hoc command carrying one note with the given text
+		cmd := &stanza.Command{Node: "n", CommandElements: []stanza.CommandElement{&stanza.Note{Type: "info", Text: in.Body}}}
+		return c01ValueRoundTrip("stanza.Command", reflect.ValueOf(cmd), 0, "iq")
 	}
 	goName := map[string]string{"message": "stanza.Message", "presence": "stanza.Presence", "iq": "stanza.IQ", "node": "stanza.Node",
 		"smenable": "stanza.SMEnable", "smenabled": "stanza.SMEnabled", "smrequest": "stanza.SMRequest", "smanswer": "stanza.SMAnswer",
@@ -1639,6 +1752,10 @@ func c01NodeShape(n *c01Node, depth int) (string, int, int) {
 func (c01) Key(inp interface{}) (string, bool) {
 	in := inp.(c01In)
 	hist("kind:" + in.Kind)
+	if in.Kind == "deepnode" || in.Kind == "qattr" || in.Kind == "cmdnote" {
+		raw, _ := json.Marshal(in)
+		return string(raw), true
+	}
 	if in.Kind == "reflect" || in.Kind == "noise" {
 		hist(in.Kind + ":" + in.GoType + map[bool]string{true: "", false: " in " + in.Wrap}[in.Wrap == ""])
 		if in.Mask != "" {
@@ -1672,7 +1789,7 @@ func (c01) Key(inp interface{}) (string, bool) {
 		hist(fmt.Sprintf("node-depth:%d", d))
 		hist(fmt.Sprintf("node-size:%d", (c+4)/5*5))
 	}
-	fmt.Fprintf(&sb, "|%v%v%v%d%d", in.Max != nil, in.H != nil, in.Resume != nil, in.MaxU, in.HU)
+	fmt.Fprintf(&sb, "|%v%v%v%d%d%s", in.Max != nil, in.H != nil, in.Resume != nil, in.MaxU, in.HU, in.Cond)
 	for _, s := range []string{in.Body, in.Subject, in.Status, in.Id} {
 		hist("text:" + c01Class(s))
 	}
@@ -1694,7 +1811,7 @@ func c01GenErr(r *rand.Rand) *c01Err {
 		e.Type = []string{"cancel", "auth", "modify", "wait", "<&>"}[r.Intn(5)]
 	}
 	if r.Intn(2) == 0 {
-		e.Reason = []string{"item-not-found", "bad-request", "a", "x1", "service-unavailable"}[r.Intn(5)]
+		e.Reason = []string{"item-not-found", "bad-request", "a", "x1", "service-unavailable", "gone"}[r.Intn(6)]
 	}
 	if r.Intn(2) == 0 {
 		e.Text = c01Text(r)
@@ -1715,7 +1832,7 @@ func c01GenNode(r *rand.Rand, depth int, parentNS string) c01Node {
 		}
 	}
 	for i := r.Intn(4); i > 0; i-- {
-		n.Attrs = append(n.Attrs, c01KV{c01Names[r.Intn(len(c01Names))], c01OptText(r)})
+		n.Attrs = append(n.Attrs, c01KV{K: c01Names[r.Intn(len(c01Names))], V: c01OptText(r)})
 	}
 	if r.Intn(2) == 0 {
 		n.Content = c01Text(r)
@@ -1806,7 +1923,7 @@ func (c01) Gen(r *rand.Rand, tier string) []interface{} {
 	for _, t := range c01Texts {
 		add(c01In{Kind: "message", Type: t, Id: t, From: t, To: t, Lang: t, Subject: t, Body: t, Thread: t, Err: &c01Err{Code: 1, Type: t, Text: t}})
 		add(c01In{Kind: "presence", Show: t, Status: t, Err: &c01Err{Type: t, Reason: "a", Text: t}})
-		add(c01In{Kind: "iq", Id: t, Lang: t, Any: &c01Node{Space: t, Local: "q", Attrs: []c01KV{{"a", t}}, Content: t, Nodes: []c01Node{{Space: t, Local: "r", Content: t}}}})
+		add(c01In{Kind: "iq", Id: t, Lang: t, Any: &c01Node{Space: t, Local: "q", Attrs: []c01KV{{K: "a", V: t}}, Content: t, Nodes: []c01Node{{Space: t, Local: "r", Content: t}}}})
 		add(c01In{Kind: "smenabled", SId: t, Location: t, SResume: t})
 		add(c01In{Kind: "smresume", PrevId: t})
 		add(c01In{Kind: "saslauth", Mechanism: t})
@@ -1818,17 +1935,45 @@ func (c01) Gen(r *rand.Rand, tier string) []interface{} {
 		{Kind: "iq", Any: &c01Node{Space: "urn:x:1", Local: "q", Nodes: []c01Node{{Local: "c", Nodes: []c01Node{{Space: "urn:x:2", Local: "d", Nodes: []c01Node{{Local: "e"}}}}}}}},
 		{Kind: "iq", Err: &c01Err{}},
 		{Kind: "iq", Id: "1", Any: &c01Node{Local: "error", Content: "not an error"}},
-		{Kind: "iq", Any: &c01Node{Space: "urn:x:1", Local: "error", Attrs: []c01KV{{"code", "7"}, {"type", "t"}}}},
 		{Kind: "message", Err: &c01Err{Code: 1, Reason: "text"}},
-		{Kind: "message", Err: &c01Err{Type: "cancel", Reason: "gone", Text: "t"}},
-		{Kind: "presence", Err: &c01Err{Reason: "gone"}},
 		{Kind: "message", Body: "nul\x00 fffe\uFFFE ffff\uFFFF ctl\x01\x1f", Id: "\x0b"},
-		{Kind: "iq", Any: &c01Node{Local: "q", Content: "\x00\uFFFE", Attrs: []c01KV{{"a", "\x0c"}}}},
+		{Kind: "iq", Any: &c01Node{Local: "q", Content: "\x00\uFFFE", Attrs: []c01KV{{K: "a", V: "\x0c"}}}},
 		{Kind: "saslauth", Mechanism: "\x00"},
 	} {
 		in.OutOfDomain = true
 		add(in)
 	}
+	// the error condition gone (with and without text), in the three stanza kinds; a generic
+	// payload that is called error in its own namespace; every <failed/> condition; SASL auth
+	// and handshake values that are not base64 / hex
+	for _, kind := range []string{"message", "presence", "iq"} {
+		add(c01In{Kind: kind, Type: "error", Err: &c01Err{Type: "modify", Reason: "gone"}})
+		add(c01In{Kind: kind, Type: "error", Err: &c01Err{Code: 302, Type: "modify", Reason: "gone", Text: "xmpp:new@example.org"}})
+	}
+	add(c01In{Kind: "iq", Id: "1", Type: "set", Any: &c01Node{Space: "urn:example:diag", Local: "error", Attrs: []c01KV{{K: "level", V: "3"}, {K: "code", V: "7"}, {K: "type", V: "t"}}, Content: "disk full"}})
+	add(c01In{Kind: "iq", Id: "2", Type: "error", Err: &c01Err{Type: "cancel", Reason: "conflict"}, Any: &c01Node{Space: "urn:example:diag", Local: "error", Nodes: []c01Node{{Space: "urn:ietf:params:xml:ns:xmpp-stanzas", Local: "text", Content: "x"}}}})
+	conds := make([]string, 0, len(c01Conds))
+	for c := range c01Conds {
+		conds = append(conds, c)
+	}
+	sort.Strings(conds)
+	seven := uint64(7)
+	for _, c := range conds {
+		add(c01In{Kind: "smfailed", Cond: c})
+		add(c01In{Kind: "smfailed", Cond: c, H: &seven})
+	}
+	for _, t := range c01Texts {
+		add(c01In{Kind: "saslauth", Mechanism: "PLAIN", Value: t})
+		add(c01In{Kind: "handshake", Value: t})
+		add(c01In{Kind: "cmdnote", Body: t}) // oracle-only: Note.Text inside a registered Command payload
+	}
+	// oracle-only: a generic payload nested deeper than a recursive encoder survives (the
+	// library serialises such a payload by itself when it answers an unhandled iq), and
+	// generic nodes with namespace-qualified attributes
+	add(c01In{Kind: "deepnode", Depth: 2000})
+	add(c01In{Kind: "deepnode", Depth: 600000})
+	add(c01In{Kind: "qattr", Any: &c01Node{Space: "urn:x:1", Local: "q", Attrs: []c01KV{{K: "a", V: "1", NS: "urn:p"}}}})
+	add(c01In{Kind: "qattr", Any: &c01Node{Local: "q", Attrs: []c01KV{{K: "lang", V: "en", NS: "http://www.w3.org/XML/1998/namespace"}, {K: "b", V: "<&>", NS: "http://a/b#c"}, {K: "c", V: "plain"}}, Nodes: []c01Node{{Space: "urn:x:2", Local: "r", Attrs: []c01KV{{K: "a", V: "2", NS: "urn:p"}, {K: "a", V: "3", NS: "urn:q"}}, Content: "t"}}}})
 	n := 1200
 	nrefl := 3
 	if tier == "thorough" {
@@ -1916,13 +2061,45 @@ func (c01) Gen(r *rand.Rand, tier string) []interface{} {
 			if r.Intn(2) == 0 {
 				in.H = c01U64(r)
 			}
+			if r.Intn(2) == 0 {
+				in.Cond = conds[r.Intn(len(conds))]
+			}
 		case "saslauth":
 			in.Mechanism = []string{"PLAIN", "X-OAUTH2", "ANONYMOUS", "", "a b<"}[r.Intn(5)]
 			in.Value = c01Plain(r, c01B64)
+			if r.Intn(4) == 0 {
+				in.Value = c01OptText(r)
+			}
 		case "handshake":
 			in.Value = c01Plain(r, c01Hex)
+			if r.Intn(4) == 0 {
+				in.Value = c01OptText(r)
+			}
 		}
 		add(in)
+	}
+	for i := 0; i < 40; i++ {
+		nd := c01GenNode(r, 3, "")
+		var mark func(n *c01Node)
+		mark = func(n *c01Node) {
+			seen := map[string]bool{}
+			var keep []c01KV
+			for _, a := range n.Attrs { // distinct qualified names: the prefix the encoder picks is per namespace
+				if r.Intn(2) == 0 {
+					a.NS = []string{"urn:p", "urn:q", "http://www.w3.org/XML/1998/namespace", "http://a/b#c"}[r.Intn(4)]
+				}
+				if !seen[a.NS+" "+a.K] {
+					seen[a.NS+" "+a.K] = true
+					keep = append(keep, a)
+				}
+			}
+			n.Attrs = keep
+			for j := range n.Nodes {
+				mark(&n.Nodes[j])
+			}
+		}
+		mark(&nd)
+		add(c01In{Kind: "qattr", Any: &nd})
 	}
 	// oracle-only reflection cases: every registered type alone and inside its stanza kind,
 	// and the stream elements
@@ -2260,6 +2437,78 @@ func c01NoiseRoundTrip(goType string, seed int64, wrap string) (msg, sig string)
 				return fmt.Sprintf("%s: typed field %s differs from the clean decode when unknown children are present: clean %q noisy %q", where, f.Name, c01Short(eb), c01Short(nb)), "noise:" + goType + ":" + f.Name
 			}
 		}
+	}
+	return "", ""
+}
+
+func c01OracleOnly(kind string) bool {
+	return kind == "reflect" || kind == "noise" || kind == "deepnode" || kind == "qattr" || kind == "cmdnote"
+}
+
+// c01DeepRoundTrip: an iq whose generic payload is nested depth levels deep: marshal, unmarshal,
+// marshal again; byte identity and depth. Everything here is iterative: what is under test is
+// whether the library's encoder is (f1: the recursive Node.MarshalXML overflows the stack, a
+// fatal error that ends the process).
+func c01DeepRoundTrip(depth int) (msg, sig string) {
+	n := stanza.Node{XMLName: xml.Name{Space: "urn:x:1", Local: "a"}, Content: "leaf"}
+	for i := 1; i < depth; i++ {
+		n = stanza.Node{XMLName: xml.Name{Space: "urn:x:1", Local: "a"}, Nodes: []stanza.Node{n}}
+	}
+	iq := &stanza.IQ{Attrs: stanza.Attrs{Id: "deep", Type: "get"}, Any: &n}
+	b1, err := xml.Marshal(iq)
+	if err != nil {
+		return "marshal of a deep generic payload fails: " + err.Error(), "nonroundtrip:stanza.Node:deep-marshal-error"
+	}
+	back := &stanza.IQ{}
+	if err := xml.Unmarshal(b1, back); err != nil {
+		return "unmarshal of a deep generic payload fails: " + err.Error(), "nonroundtrip:stanza.Node:deep-unmarshal-error"
+	}
+	d := 0
+	for p := back.Any; p != nil; d++ {
+		if len(p.Nodes) == 0 {
+			if p.Content != "leaf" {
+				return "leaf content lost in a deep generic payload", "nonroundtrip:stanza.Node:deep"
+			}
+			break
+		}
+		p = &p.Nodes[0]
+	}
+	if d+1 != depth {
+		return fmt.Sprintf("depth %d read back as %d", depth, d+1), "nonroundtrip:stanza.Node:deep"
+	}
+	b2, err := xml.Marshal(back)
+	if err != nil || !bytes.Equal(b1, b2) {
+		return fmt.Sprintf("second marshal of a deep generic payload differs (err %v, %d vs %d bytes)", err, len(b1), len(b2)), "nonroundtrip:stanza.Node:deep-bytes"
+	}
+	return "", ""
+}
+
+// c01QAttrRoundTrip: a generic Node with namespace-qualified attributes (outside the model's
+// tree language, which has no prefixes): the value and the bytes must survive.
+func c01QAttrRoundTrip(in c01In) (msg, sig string) {
+	n := c01GoNode(*in.Any)
+	iq := &stanza.IQ{Attrs: stanza.Attrs{Id: "q", Type: "set"}, Any: &n}
+	b1, err := xml.Marshal(iq)
+	if err != nil {
+		return "marshal fails: " + err.Error(), "nonroundtrip:stanza.Node:qualified-attr-marshal-error"
+	}
+	if _, ok := c01ReadDoc(b1); !ok {
+		return fmt.Sprintf("the marshalled bytes are not a well-formed element: %q", c01Short(b1)), "illformed:stanza.Node"
+	}
+	back := &stanza.IQ{}
+	if err := xml.Unmarshal(b1, back); err != nil {
+		return "unmarshal fails: " + err.Error() + " on " + c01Short(b1), "nonroundtrip:stanza.Node:qualified-attr-unmarshal-error"
+	}
+	if back.Any == nil || c01FirstDiff(c01NodeSx(n), c01NodeSx(*back.Any), "") != "" {
+		got := "nil"
+		if back.Any != nil {
+			got = fmt.Sprintf("%+v", back.Any.Attrs)
+		}
+		return fmt.Sprintf("generic node with a qualified attribute changed in the round trip: attributes %+v read back as %s; bytes %q", n.Attrs, got, c01Short(b1)), "nonroundtrip:stanza.Node:qualified-attr"
+	}
+	b2, err := xml.Marshal(back)
+	if err != nil || !bytes.Equal(b1, b2) {
+		return fmt.Sprintf("second marshal differs: %q vs %q", c01Short(b1), c01Short(b2)), "nonroundtrip:stanza.Node:qualified-attr-bytes"
 	}
 	return "", ""
 }
